@@ -25,8 +25,14 @@ pub struct ConIterOfArray<const N: usize, T: Send + Sync> {
 impl<const N: usize, T: Send + Sync> Drop for ConIterOfArray<N, T> {
     fn drop(&mut self) {
         let current = self.counter().current();
-        if current <= N {
-            let _remaining_vec_to_be_dropped = unsafe { self.split_off_right(current) };
+        if current < N {
+            let array = self.array.get_mut();
+            // SAFETY: elements current..N are in bounds, initialized and are not yielded to any caller
+            unsafe {
+                let remaining =
+                    std::ptr::slice_from_raw_parts_mut(array.as_mut_ptr().add(current), N - current);
+                std::ptr::drop_in_place(remaining);
+            }
         }
     }
 }
@@ -67,13 +73,17 @@ impl<const N: usize, T: Send + Sync> ConIterOfArray<N, T> {
     unsafe fn split_off_right(&self, left_len: usize) -> Vec<T> {
         debug_assert!(left_len <= N);
 
-        let man_array = &mut *self.array.get();
-        let mut array = ManuallyDrop::take(man_array);
+        let array = &mut *self.array.get();
+        let right_len = N - left_len;
 
-        let mut vec = Vec::from_raw_parts(array.as_mut_ptr(), N, 0);
-        let right_vec = vec.split_off(left_len);
-
-        *man_array = ManuallyDrop::new(array);
+        // elements left_len..N are moved to the right vector; elements before are left untouched
+        let mut right_vec = Vec::with_capacity(right_len);
+        std::ptr::copy_nonoverlapping(
+            array.as_ptr().add(left_len),
+            right_vec.as_mut_ptr(),
+            right_len,
+        );
+        right_vec.set_len(right_len);
         right_vec
     }
 }
@@ -187,6 +197,8 @@ impl<const N: usize, T: Send + Sync> ConcurrentIter for ConIterOfArray<N, T> {
     fn into_seq_iter(self) -> Self::SeqIter {
         let current = self.counter().current();
         let remaining_vec = unsafe { self.split_off_right(current.min(N)) };
+        // remaining elements are now owned by the remaining_vec: nothing is left to be dropped with self
+        self.counter().store(N);
         remaining_vec.into_iter()
     }
 
